@@ -71,7 +71,9 @@ PROPS = {
         units=[
         unit("c12-rules", "route", ROUTE_COMMON + ["route/sched_test.go", "route/c12_test.go"], "^TestVerifC12", engines=SCHED),
         unit("c12-http", "proxy", PROXY_COMMON + ["proxy/c12_test.go"], "^TestVerifC12"),
-    ], layers={"quick": ["c12-rules", "c12-http"], "thorough": ["c12-rules", "c12-http"]}),
+        unit("c12-tcp", "proxy/tcp", TCP_COMMON + ["tcp/c10_test.go", "tcp/c09_test.go"], "^TestVerifC12", engines=SCHED + ["vhook", "vnet"], sched_env={"GOMAXPROCS": "1"},
+             rewrite=[{"files": ["proxy/tcp/tcp_proxy.go", "proxy/tcp/sni_proxy.go", "proxy/tcp/tcp_dynamic_proxy.go"], "opts": ["-go", "-chan", "-sel", "net.DialTimeout=vhook.DialTimeout"]}]),
+    ], layers={"quick": ["c12-rules", "c12-http", "c12-tcp"], "thorough": ["c12-rules", "c12-http", "c12-tcp"]}),
     "C07": dict(level="exploration", engine="benum",
         technique="bounded-exhaustive product of requests x route options through the real HTTPProxy + ReverseProxy to a recording upstream, reference rewrite on the escaped path",
         level_text="The full product of method x path (incl. %2F, %20, //) x query x header set x body shape x strip x prepend x host option x target query (36k quick, 72k thorough) and an upstream response matrix (status x headers x body shape x method) plus the no-route matrix are executed on the real HTTPProxy.ServeHTTP and httputil.ReverseProxy against a real loopback upstream; every observable (method, request-target, Host, headers, body, status) is compared with the statement's rewrite rules.",
@@ -157,6 +159,14 @@ PROPS = {
         unit("c01-health", "registry/consul", ["consul/c14_test.go", "consul/c01_test.go"], "^TestVerifC01"),
         unit("c01-pipeline", ".", MAIN_COMMON + ["main/c02_hist_test.go", "main/c01_test.go"], "^TestVerifC01", shards={"quick": 4, "thorough": 16}),
     ], layers={"quick": ["c01-health", "c01-pipeline"], "thorough": ["c01-health", "c01-pipeline"]}),
+    "C09": dict(level="model_checking", engine="vsched",
+        technique="stateless model checking: controlled scheduler over the real ServeTCP of the three TCP proxies (and the websocket relay) with in-memory connections; scenario product x all interleavings up to a preemption bound",
+        level_text="For every scenario of the product listener kind x PROXY protocol x client segmentation x close order x reply timing, every interleaving (preemption bound 1 quick, 2 thorough) of client, upstream, ServeTCP and its two copier goroutines is executed on the real proxy code over in-memory connections and the delivered byte streams are checked for prefix/exactly-once/in-order delivery and for completeness towards whichever side finished first.",
+        level_note="Kernel TCP behaviour (RST on close with unread data, Nagle, buffers) is not modelled: a write towards a peer that already closed succeeds and is discarded. TLS-wrapped listeners are byte-transparent above crypto/tls and not re-explored.",
+        units=[
+        unit("c09", "proxy/tcp", TCP_COMMON + ["tcp/c10_test.go", "tcp/c09_test.go"], "^TestVerifC09", engines=SCHED + ["vhook", "vnet"], sched_env={"GOMAXPROCS": "1"}, shards={"quick": 8, "thorough": 16},
+             rewrite=[{"files": ["proxy/tcp/tcp_proxy.go", "proxy/tcp/sni_proxy.go", "proxy/tcp/tcp_dynamic_proxy.go"], "opts": ["-go", "-chan", "-sel", "net.DialTimeout=vhook.DialTimeout"]}]),
+    ], layers={"quick": ["c09-tunnels"], "thorough": ["c09-tunnels"]}),
 }
 
 def layer_unit(pid, layer):
